@@ -6,6 +6,7 @@ One model step = one mutex-protected section (or one unlocked poller statement) 
 
 * `write` / `writev` / `sendfile`   — the whole method body (under `c.mux`)
 * `register`                        — `addConn`'s `EPOLL_CTL_ADD` (runs *after* the open callback)
+* `registerDial`                    — `addDialer` (DialAsync, connect in progress)
 * `evTake`                          — the kernel hands an event to the poller (ONESHOT: disarms the fd),
                                       the poller runs `c.flush()` for the EPOLLOUT part
 * `evEnd`                           — what the poller does after the read part: `ResetPollerEvent`
@@ -66,6 +67,9 @@ structure S where
   -- poller side: an event of this conn has been taken and its tail is still to run
   rearm : Bool := false       -- … `ResetPollerEvent` is still to come (ONESHOT)
   evErr : Bool := false       -- … `closeWithError(io.EOF)` is still to come
+  -- DialAsync: `c.onConnected != nil` (connect in progress) / the poller is running that callback
+  connecting : Bool := false
+  connEv : Bool := false
   -- kernel side
   reg : Bool := false         -- fd registered with epoll
   kOut : Bool := false        -- EPOLLOUT in the registered interest set
@@ -118,9 +122,9 @@ def pAddReadWrite (_g : Cfg) (s : S) : S := kctl s true true
 /-- Conn.modWrite -/
 def cModWrite (g : Cfg) (s : S) : S :=
   if !s.closed && !s.isWAdded then pModWrite g { s with isWAdded := true } else s
-/-- Conn.resetRead -/
+/-- Conn.resetRead: back to read-only, unless something is left to write -/
 def cResetRead (g : Cfg) (s : S) : S :=
-  if !s.closed && s.isWAdded then pResetRead g { s with isWAdded := false } else s
+  if !s.closed && s.isWAdded && s.wl.isEmpty then pResetRead g { s with isWAdded := false } else s
 /-- Conn.ResetPollerEvent -/
 def resetPollerEvent (g : Cfg) (s : S) : S :=
   if g.mode == .oneshot && !s.closed then (if s.wl.isEmpty then pResetRead g s else pModWrite g s) else s
@@ -268,22 +272,33 @@ def register (g : Cfg) (s : S) : S :=
   if s.hung || s.reg || s.closed then s
   else if s.wl.isEmpty then pAddRead g s else pAddReadWrite g s
 
-/-- which parts of a requested event the kernel can deliver in this state -/
+/-- addDialer (DialAsync with the connect in progress): write interest is registered from the start and
+    the connected callback is pending -/
+def registerDial (g : Cfg) (s : S) : S :=
+  if s.hung || s.reg || s.closed then s
+  else pAddReadWrite g { s with isWAdded := true, connecting := true }
+
+/-- which parts of a requested event the kernel can deliver in this state (no data arrives on a
+    connection that is not yet established; the poller handles one event of a conn at a time) -/
 def deliverable (s : S) (out inn err : Bool) : Bool × Bool × Bool :=
-  if s.hung || !s.reg || s.closed || s.disarmed || s.rearm || s.evErr then (false, false, false)
-  else (out && s.kOut, inn, err)
+  if s.hung || !s.reg || s.closed || s.disarmed || s.rearm || s.evErr || s.connEv then (false, false, false)
+  else (out && s.kOut, inn && !s.connecting, err)
 
 /-- the kernel reports an event, the poller runs the EPOLLOUT part -/
 def evTake (g : Cfg) (s : S) (out inn err : Bool) (ks : List KAns) : S :=
   let d := deliverable s out inn err
   if !(d.1 || d.2.1 || d.2.2) then s else
   let s := if g.mode == .oneshot then { s with disarmed := true } else s
-  let s := if d.1 then flush g s ks else s
+  -- EPOLLOUT: the connected callback if the connect was in progress (its calls are separate steps),
+  -- else flush
+  let s := if d.1 then (if s.connecting then { s with connEv := true } else flush g s ks) else s
   { s with rearm := g.mode == .oneshot && (d.1 || d.2.1), evErr := d.2.2 }
 
 /-- the tail of the poller's handling of the event -/
 def evEnd (g : Cfg) (s : S) : S :=
   if s.hung then s else
+  -- after the connected callback: `c.onConnected = nil; c.resetRead()` under the mutex
+  let s := if s.connEv then cResetRead g { s with connecting := false, connEv := false } else s
   let s := if s.rearm then resetPollerEvent g { s with rearm := false } else s
   if s.evErr then (if s.closed then { s with evErr := false } else closeNow { s with evErr := false }) else s
 
@@ -296,6 +311,7 @@ inductive Op
   | writev (bs : List Bytes) (k : KAns)
   | sendfile (off len : Nat) (ks : List KAns)
   | register
+  | registerDial
   | evTake (out inn err : Bool) (ks : List KAns)
   | evEnd
   | close
@@ -305,6 +321,7 @@ def step (g : Cfg) (s : S) : Op → S
   | .writev bs k => (writev g s bs k).1
   | .sendfile off len ks => (sendfile g s off len ks).1
   | .register => register g s
+  | .registerDial => registerDial g s
   | .evTake o i e ks => evTake g s o i e ks
   | .evEnd => evEnd g s
   | .close => close s
